@@ -104,7 +104,7 @@ func swapPN(fr clip.FillRule) clip.FillRule {
 
 func cmdC17(r *RNG, n int, e *Emitter, args []string) {
 	for i := 0; i < n; i++ {
-		takeDiscards()
+		clearEvents()
 		s, c, info := genPair(r)
 		ct := clip.ClipType(1 + r.Intn(4))
 		fr := clip.FillRule(r.Intn(4))
